@@ -281,13 +281,9 @@ func (b *Broker[T]) Stop() {
 }
 
 // Wait blocks until either the context has been canceled, or all work
-// has been completed.
-func (b *Broker[T]) Wait(ctx context.Context) {
-	b.mu.Lock()
-	defer b.mu.Unlock()
-
-	b.wg.Wait(ctx)
-}
+// has been completed. Wait does not hold the broker's mutex: Stop (and
+// other Wait calls) must be able to proceed while a Wait is blocked.
+func (b *Broker[T]) Wait(ctx context.Context) { b.wg.Wait(ctx) }
 
 // Subscribe generates a new subscription channel, of the specified
 // buffer size. You *must* call Unsubcribe on this channel when you
